@@ -17,7 +17,9 @@ from . import c13
 from .common import parallel_map
 
 RULE = ("cases = (declared graph as in C13 with extra tags, target product, recursive, check, force); every product "
-        "of a graph is a target, flag combinations are sampled so that each graph contributes about 24 removals; a "
+        "of a graph is a target, flag combinations are sampled so that each graph contributes about 20 removals; plus an "
+        "exhaustive family (4 products, every subset of 2 candidate lines per table: 256 graphs x every target x flags; "
+        "all in the thorough tier, 6 graphs otherwise); a "
         "case is non-trivial when the target has a dependency or a user; distinct = distinct (graph, case) digests")
 TRUSTED = c13.TRUSTED + ["the abstract effect of Eups.undeclare (declaration and every tag on that version disappear) is C06's "
                          "subject; here it is observed on the files, not modelled in detail"]
@@ -42,7 +44,7 @@ def gen_graph(rng, wide=False):
     return g
 
 
-def gen_cases(rng, g, per_graph=24):
+def gen_cases(rng, g, per_graph=20):
     allc = [[p["name"], p["version"], r, c, f] for p in g["products"] for r in (False, True) for c in (False, True) for f in (False, True)]
     rng.shuffle(allc)
     return sorted(allc[:per_graph])
@@ -131,8 +133,10 @@ def oracle(R, graph, case, io_, closures):
             cyclic = any(any(b != a and b in rr[a] and a in rr.get(b, ()) for b in nodes) for a in nodes) or top in listed
             if check and unsetup_any:
                 yield ("terminates", "D32", "RecursionError from the in-use check (unsetupRequired inside a cycle)")
-            elif rec and (cyclic or unsetup_any):
-                yield ("terminates", "D33", "RecursionError: recursive remove over a cyclic dependency closure")
+            elif rec and cyclic:
+                yield ("terminates", None, "RecursionError: recursive remove over a cyclic dependency closure (D33, repaired)")
+            elif rec and unsetup_any:
+                yield ("terminates", "D32", "RecursionError: unsetupRequired line met while listing direct dependencies")
             else:
                 yield ("no_error", None, "RecursionError")
         else:
@@ -188,7 +192,8 @@ def model_request(graph, cases):
     return {"m": "c14", "graph": {"products": graph["products"]}, "default": None, "cases": cases}
 
 
-def evaluate(ctx, graphs, per_graph=24, all_cases=False):
+def evaluate(ctx, graphs, per_graph=20, all_cases=False):
+    L.preimport()
     jobs = []
     for g in graphs:
         cases = gen_cases(ctx.rng, g, 10 ** 6 if all_cases else per_graph)
@@ -258,7 +263,18 @@ def run(ctx):
     ctx.hist("corpus", len(cg))
     if cg:
         evaluate(ctx, cg, all_cases=True)
-    n = ctx.n(110, 5000)
+    # exhaustive small family (C13's, two candidate lines per table: 256 graphs), every target and flag combination
+    total = c13.enum_count(2)
+    if ctx.tier == "thorough" or ctx.escalated:
+        ids = list(range(total))
+        ctx.note("exhaustive family: all %d graphs x every target x recursive x check x force" % total)
+    else:
+        ids = [(ctx.seed * 97 + k * 37) % total for k in range(6)]
+    for at in range(0, len(ids), 32):
+        if ctx.out_of_time():
+            break
+        evaluate(ctx, [c13.enum_graph(i, 2) for i in ids[at:at + 32]], all_cases=True)
+    n = ctx.n(60, 5000)
     done = 0
     while done < n and not ctx.out_of_time():
         k = min(40, n - done)
@@ -267,13 +283,14 @@ def run(ctx):
     if ctx.evaluations and ctx.distinct_nontrivial < ctx.evaluations * 0.3:
         raise common.InfraError("degenerate distribution: %d non-trivial of %d" % (ctx.distinct_nontrivial, ctx.evaluations))
     h = ctx.histogram
-    if not ctx.escalated and n >= 100:
+    if not ctx.escalated and n >= 60:
         for need in ("target:has_user", "target:has_dependency", "target:shares_dependency"):
             if not h.get(need):
                 raise common.InfraError("degenerate distribution: no case with %s" % need)
 
 
 def replay(ctx, rp):
+    common.import_eups()
     inp = rp["input"]
     g, case = inp["graph"], inp["case"]
     io_ = in_child_job((g, case))
